@@ -144,6 +144,7 @@ def rotate(xs, seed):
 
 def probes_single_ops(seed, full=True):
     ang = [PI / 2, -PI / 3, 2 * PI + 0.4, seed_angle(seed)]
+    disp = [[0.4, 0.3], [-0.5, 0.0], [0.0, 0.6]]
 
     def gen(m, w, o):
         acts = []
@@ -162,6 +163,9 @@ def probes_single_ops(seed, full=True):
                 ops += [("Creation", None), ("Annihilation", None), ("PhaseShift", {"phi": PI / 2}),
                         ("PhaseShift", {"phi": -1.3}), ("FIdentity", None), ("FCustom", {"tag": 1}),
                         ("FExpr", {"t": 0.7})]
+                if m.ref.dims[s] >= 20:
+                    # worlds with a large reference cut-off: displacement judged with the truncation tolerance
+                    ops += [("Displace", {"alpha": al}) for al in (disp if full else disp[:1])]
             else:
                 ops += [("QCustom", {"tag": 2}), ("QExpr", None)]
             for ent in entries_for(m, s):
@@ -422,6 +426,16 @@ SEEDS_W1 = [
     ("W1/1R", W1({"A.f": 1, "A.p": "R"})),
     ("W1/2V-dim-noctr", W1({"A.f": 2, "A.p": "V", "A.f.dim": 4}, contraction=False)),
 ]
+def big_w1():
+    """W1 with a reference cut-off large enough for displacements (joint dimension 24 x 2)."""
+    a = W1({"A.f": 1, "A.p": "R"})
+    a["D"] = 24
+    b = W1({"A.f": 0, "A.f.dim": 3, "A.p": "L"}, contraction=False)
+    b["D"] = 24
+    b["prefix"] = [["kraus", "env:A", ["A.f", "A.p"], "uni", None]]
+    return [("W1/1R-D24", a), ("W1/entangled-D24", b)]
+
+
 SEEDS_W4 = [
     ("W4/default", W4()),
     ("W4/distinct", W4({"A.f": 1, "B.f": 2, "A.p": "R", "B.p": "V", "C.p": "L"})),
@@ -437,7 +451,8 @@ def get(name, tier, seed):
     core = lambda m, w, o: rotate(layout_core(m, w, o), 0)  # noqa: E731
     base = {"D": 6, "faults": False, "wall_cap": 1500 if q else int(os.environ.get("PWMC_WALL_CAP", "1800")), "state_cap": 100000}
     if name == "C01":
-        return {**base, "prop": "C01", "worlds": (SEEDS_W3[:2] + SEEDS_W1[:2] if q else SEEDS_W3 + SEEDS_W1) + rich_seeds(1 if q else 2),
+        return {**base, "prop": "C01", "worlds": (SEEDS_W3[:2] + SEEDS_W1[:2] if q else SEEDS_W3 + SEEDS_W1) + rich_seeds(1 if q else 2)
+                + [(n, w_, 1 if q else 2) for n, w_ in big_w1()],
                 "core": core, "probes": probes_single_ops(seed, full=not q), "depth": 2 if q else 3}
     if name == "C02":
         return {**base, "prop": "C02", "worlds": (SEEDS_W3[:2] + SEEDS_W1[:2] if q else SEEDS_W3 + SEEDS_W1) + rich_seeds(1 if q else 2) + weak_seed(0 if q else 1),
